@@ -1,6 +1,6 @@
 SPECIFICATION XSpec
 CONSTANTS
- Mols <- MolsUnbacked
+ Mols <- MCMols
  Dev = "none"
  FixedOrder = TRUE
 INVARIANT LawsAtStart
